@@ -21,8 +21,14 @@ def addBaseURL(self, urlarg):
 
 # Basic macros
 
-ref.args = '* %s' % ref.args
-pageref.args = '* %s' % pageref.args
+# The starred forms belong to documents that load this package: they are
+# variants of the standard classes, which stay as they are for everybody else
+
+class ref(ref):
+    args = '* %s' % ref.args
+
+class pageref(pageref):
+    args = '* %s' % pageref.args
 
 class href(Command):
     args = 'url:url self'
